@@ -293,7 +293,12 @@ def do_nbser(task):
         return {'fail': type(e).__name__}
 
 
-OPS = {'serve': do_serve, 'lib_diff': do_lib_diff, 'lib_merge': do_lib_merge, 'nbread': do_nbread, 'nbser': do_nbser}
+def do_newnb(task):
+    import nbformat
+    return {'ok': json.loads(json.dumps(nbformat.v4.new_notebook()))}
+
+
+OPS = {'newnb': do_newnb, 'serve': do_serve, 'lib_diff': do_lib_diff, 'lib_merge': do_lib_merge, 'nbread': do_nbread, 'nbser': do_nbser}
 
 
 def run_forked(task, timeout=120):
